@@ -30,13 +30,22 @@ VARIANTS = {
 }
 
 
+XFAIL = [()]  # indices of records whose write is expected to be refused; the caller skips them
+
+
 def impl_write(records):
     from flow.record import RecordStreamWriter
 
     buf = io.BytesIO()
     w = RecordStreamWriter(buf)
-    for r in records:
-        w.write(r)
+    for i, r in enumerate(records):
+        if i in XFAIL[0]:
+            try:
+                w.write(r)
+            except (UnicodeError, ValueError, TypeError, OverflowError):
+                pass
+        else:
+            w.write(r)
     w.flush()
     return buf.getvalue()
 
@@ -61,9 +70,8 @@ def run_case(case):
         records = [recs.build_record(r) for r in case["records"]]
     except Exception as e:  # noqa: BLE001
         return {"ev": 1, "h": h, "nt": False, "out": "rejected:" + type(e).__name__}
-    if any(r.get("xfail") for r in case["records"]):
-        return {"ev": 1, "h": h, "nt": False, "out": "refused-write-history (C01/C03)"}
-    expected = obs_list(records)
+    XFAIL[0] = tuple(i for i, r in enumerate(case["records"]) if r.get("xfail"))
+    expected = obs_list([r for i, r in enumerate(records) if i not in XFAIL[0]])
     viol = []
     outs = []
     n = 1
@@ -97,6 +105,8 @@ def run_case(case):
         outs.append("i-format")
     # (ii) ref -> impl
     for vn, kw in VARIANTS.items():
+        if XFAIL[0]:
+            break  # direction (ii) encodes what was accepted; refused-write histories are a writer-side matter
         if vn in ("repeatheader",) and len(expected) < 2:
             continue
         n += 1
